@@ -151,6 +151,7 @@ HarnessOK(c, ln) ==
   /\ \A i \in 1..Len(rets) : rets[i].d = Len(c.D) + i
   /\ \A i \in 1..Len(fs) : fs[i].d \in 1..(Len(c.D) + Len(rets))
 
+Jittered(ln) == "meta" \in DOMAIN ln /\ "jitter" \in DOMAIN ln.meta
 \* stage 3: segments of a stimulus interrupted by re-entrant API calls
 Mid(ln)    == "part" \in DOMAIN ln.stim                       \* the stimulus continues after this line
 IsContL(ln) == ln.stim.op = "cont"
@@ -578,7 +579,8 @@ C08_Write(r, c, c2, ln, w, arms) ==
                   ELSE IF ~SameButDup(x.first, w.bytes) THEN "C08.content_changed"
                   ELSE IF dup # dupWant THEN "C08.dup_wrong"
                   ELSE IF byTimer /\ gap < 1024 * x.initT THEN "C08.repeated_too_early"
-                  ELSE IF byTimer /\ w.cls = "pub" /\ gap < prevGap THEN "C08.gap_shrinks"
+                  \* (runs with the library's own random jitter in [0, 1 s): a gap may be up to one second shorter than the last)
+                  ELSE IF byTimer /\ w.cls = "pub" /\ gap + (IF Jittered(ln) THEN 1024 ELSE 0) < prevGap THEN "C08.gap_shrinks"
                   ELSE ""
        IN [r EXCEPT !.X[i] = x2, !.err = err, !.info = <<w.cls, w.p.id, dup, gap, prevGap, ln.stim.op>>, !.hit = @ + 1]
 RECURSIVE C08_Fold(_, _, _, _, _, _, _)
